@@ -303,3 +303,95 @@ Theorem C10_graphic_submatrix :
     GraphicClosure.GraphicP m n M -> GraphicClosure.GraphicP (length rs) (length cs) (submat M rs cs).
 Proof. exact GraphicClosure.GraphicP_submat. Qed.
 Print Assumptions C10_graphic_submatrix.
+
+(* ---------- the judge accepts EXACTLY the records that satisfy its specification (JudgeComplete3.v): completeness besides soundness,
+   a record of a correct answer is never rejected ---------- *)
+From Cmr Require JudgeComplete3.
+Theorem C10_judge_rel_kind1_accepts_exactly_the_specification :
+    forall (rec p1 p2 : list Z) (m n : nat) (M : mat) (m' n' : nat) (M' : mat) (v v' rest : list Z),
+    RelProofs.rel_input rec = Some (1%Z, p1, p2, (m, n, M), (m', n', M'), v, v', rest) ->
+    RelModel.judge_rel rec = 0%Z <-> JudgeComplete3.rel_spec1 p1 p2 m n M m' n' M' v v'.
+Proof. exact JudgeComplete3.judge_rel_kind1_iff. Qed.
+Print Assumptions C10_judge_rel_kind1_accepts_exactly_the_specification.
+Theorem C10_judge_rel_kind2_accepts_exactly_the_specification :
+    forall (rec p1 p2 : list Z) (m n : nat) (M : mat) (m' n' : nat) (M' : mat) (v v' rest : list Z),
+    RelProofs.rel_input rec = Some (2%Z, p1, p2, (m, n, M), (m', n', M'), v, v', rest) ->
+    RelModel.judge_rel rec = 0%Z <-> JudgeComplete3.rel_spec2 p1 p2 m n M m' n' M' v v'.
+Proof. exact JudgeComplete3.judge_rel_kind2_iff. Qed.
+Print Assumptions C10_judge_rel_kind2_accepts_exactly_the_specification.
+Theorem C10_judge_rel_kind3_accepts_exactly_the_specification :
+    forall (rec p1 p2 : list Z) (m n : nat) (M : mat) (m' n' : nat) (M' : mat) (v v' rest : list Z),
+    RelProofs.rel_input rec = Some (3%Z, p1, p2, (m, n, M), (m', n', M'), v, v', rest) ->
+    RelModel.judge_rel rec = 0%Z <-> JudgeComplete3.rel_spec3 m n M m' n' M' v v'.
+Proof. exact JudgeComplete3.judge_rel_kind3_iff. Qed.
+Print Assumptions C10_judge_rel_kind3_accepts_exactly_the_specification.
+Theorem C10_judge_rel_kind4_accepts_exactly_the_specification :
+    forall (rec p1 p2 : list Z) (m n : nat) (M : mat) (m' n' : nat) (M' : mat) (v v' rest : list Z),
+    RelProofs.rel_input rec = Some (4%Z, p1, p2, (m, n, M), (m', n', M'), v, v', rest) ->
+    RelModel.judge_rel rec = 0%Z <-> JudgeComplete3.rel_spec4 p1 m n M m' n' M' v v'.
+Proof. exact JudgeComplete3.judge_rel_kind4_iff. Qed.
+Print Assumptions C10_judge_rel_kind4_accepts_exactly_the_specification.
+Theorem C10_judge_rel_kind5_accepts_exactly_the_specification :
+    forall (rec p1 p2 : list Z) (m n : nat) (M : mat) (m' n' : nat) (M' : mat) (v v' rest : list Z),
+    RelProofs.rel_input rec = Some (5%Z, p1, p2, (m, n, M), (m', n', M'), v, v', rest) ->
+    RelModel.judge_rel rec = 0%Z <-> JudgeComplete3.rel_spec5 p1 p2 m n M m' n' M' v v'.
+Proof. exact JudgeComplete3.judge_rel_kind5_iff. Qed.
+Print Assumptions C10_judge_rel_kind5_accepts_exactly_the_specification.
+Theorem C10_judge_rel_kind6_accepts_exactly_the_specification :
+    forall (rec p1 p2 : list Z) (m n : nat) (M : mat) (m' n' : nat) (M' : mat) (v v' rest : list Z),
+    RelProofs.rel_input rec = Some (6%Z, p1, p2, (m, n, M), (m', n', M'), v, v', rest) ->
+    RelModel.judge_rel rec = 0%Z <-> JudgeComplete3.rel_spec6 p1 m n M m' n' M' v v'.
+Proof. exact JudgeComplete3.judge_rel_kind6_iff. Qed.
+Print Assumptions C10_judge_rel_kind6_accepts_exactly_the_specification.
+Theorem C10_judge_rel_kind7_accepts_exactly_the_specification :
+    forall (rec p1 p2 : list Z) (m n : nat) (M : mat) (m' n' : nat) (M' : mat) (v v' rest : list Z),
+    RelProofs.rel_input rec = Some (7%Z, p1, p2, (m, n, M), (m', n', M'), v, v', rest) ->
+    RelModel.judge_rel rec = 0%Z <-> JudgeComplete3.rel_spec7 p1 m n M m' n' M' v v'.
+Proof. exact JudgeComplete3.judge_rel_kind7_iff. Qed.
+Print Assumptions C10_judge_rel_kind7_accepts_exactly_the_specification.
+
+(* ---------- network matrices as defined by certificates (NetworkClosure.NetworkP: some forest T and non-forest arcs C satisfy the
+   signed path specification) are closed under the operations of C10: permutations, +-1 scaling of lines (arc reversal), zero / unit /
+   (negated) duplicated lines, submatrices (contraction of tree arcs) ---------- *)
+From Cmr Require NetworkClosure.
+Theorem C10_network_permutation :
+    forall (m n : nat) (M : mat) (rp cp : list nat),
+    wf_mat m n M = true ->
+    RelModel.is_perm_l m rp = true ->
+    RelModel.is_perm_l n cp = true ->
+    NetworkClosure.NetworkP m n M <-> NetworkClosure.NetworkP m n (submat M rp cp).
+Proof. exact NetworkClosure.NetworkP_perm_iff. Qed.
+Print Assumptions C10_network_permutation.
+Theorem C10_network_scaling :
+    forall (m n : nat) (M : mat) (p1 p2 : list Z),
+    wf_mat m n M = true ->
+    length p1 = m ->
+    length p2 = n ->
+    forallb RelModel.is_pm1' p1 = true ->
+    forallb RelModel.is_pm1' p2 = true ->
+    NetworkClosure.NetworkP m n M <->
+    NetworkClosure.NetworkP m n (mk_mat m n (fun i j : nat => (nthZ p1 i * nthZ p2 j * get M i j)%Z)).
+Proof. exact NetworkClosure.NetworkP_scale. Qed.
+Print Assumptions C10_network_scaling.
+Theorem C10_network_reducible_line :
+    forall (m' n' : nat) (M' : mat) (isr : bool) (k : nat),
+    wf_mat m' n' M' = true ->
+    is_ternary M' = true ->
+    (if isr then (k <? m')%nat else (k <? n')%nat) = true ->
+    RelModel.line_reducible true m' n' M' isr k = true ->
+    NetworkClosure.NetworkP m' n' M' <->
+    (if isr
+    then NetworkClosure.NetworkP (m' - 1) n' (submat M' (RelModel.keep_line m' k) (iota 0 n'))
+    else NetworkClosure.NetworkP m' (n' - 1) (submat M' (iota 0 m') (RelModel.keep_line n' k))).
+Proof. exact NetworkClosure.NetworkP_reducible_line. Qed.
+Print Assumptions C10_network_reducible_line.
+Theorem C10_network_submatrix :
+    forall (m n : nat) (M : mat) (rs cs : list nat),
+    wf_mat m n M = true ->
+    strictly_increasing rs = true ->
+    strictly_increasing cs = true ->
+    all_lt m rs = true ->
+    all_lt n cs = true ->
+    NetworkClosure.NetworkP m n M -> NetworkClosure.NetworkP (length rs) (length cs) (submat M rs cs).
+Proof. exact NetworkClosure.NetworkP_submat. Qed.
+Print Assumptions C10_network_submatrix.
